@@ -318,6 +318,44 @@ pub fn word_histories(seed: u64, n: usize) -> RunOut {
     c.out
 }
 
+/// A replica that fills a whole bitfield page out of order (C08): blocks 0..k in order, then the rest of
+/// page 0 from its last index downwards, and the block at the hint last — so that the hint has to travel
+/// over a run that ends exactly at the end of the highest allocated page.
+pub fn page_replica_histories(seed: u64, n: usize) -> RunOut {
+    let mut r = Rng::new(seed);
+    let mut c = Ctx { sim: Sim::new(), out: RunOut { ops: vec![], outs: vec![], stats: BTreeMap::new(), failures: vec![], samples: vec![] }, seen: HashSet::new(), hist_digest: String::new() };
+    const PAGE: u64 = 32768;
+    c.sim.light = true;
+    for _ in 0..n {
+        c.run(format!("new W {SEED_HEX}"));
+        let extra = r.below(3);
+        c.run(format!("fill W {} {}", PAGE / 2, r.below(200)));
+        c.run(format!("fill W {} {}", PAGE / 2 + extra, r.below(200)));
+        c.run("newr R W".into());
+        let wl = PAGE + extra;
+        let k = r.range(2, 120);
+        let mut fetch = |c: &mut Ctx, i: u64, first: bool| {
+            let o = c.run(format!("missing R {i}"));
+            let nn: u64 = o.strip_prefix("ok ").and_then(|x| x.parse().ok()).unwrap_or(0);
+            let ups = if first { format!("0:{wl}") } else { "-".to_string() };
+            let o = c.run(format!("prove W {i}:{nn} - - {ups}"));
+            if o.starts_with("ok fork") { let t = crate::sim::proof_full_txt(c.sim.proof.as_ref().unwrap()); c.run(format!("applyp R {t}")); }
+        };
+        for i in 0..k { fetch(&mut c, i, i == 0); }
+        c.run("info R".into());
+        for i in ((k + 1)..PAGE).rev() { fetch(&mut c, i, false); }
+        c.run("info R".into());
+        fetch(&mut c, k, false);
+        c.run("info R".into());
+        c.run("probe R".into());
+        c.run("reopen R".into());
+        c.run("info R".into());
+        *c.out.stats.entry("page_filled_out_of_order".into()).or_insert(0) += 1;
+        c.end_history();
+    }
+    c.out
+}
+
 /// Honest replication (C03): a writer W with appends/clears, one or two replicas fetching in random
 /// request orders; every request is well-formed (nodes from missing_nodes, upgrade from the
 /// replica's own length whenever it is behind).
@@ -766,6 +804,13 @@ pub fn event_histories(seed: u64, n: usize, max_ops: u64) -> RunOut {
                     if r.chance(1, 2) { if let Some((q, _)) = alter(&honest, other.as_ref(), &mut r) { if q != honest { c.sim.proof_honest = false; let o = c.run(format!("applyp R {}", crate::sim::proof_full_txt(&q))); if o.starts_with("ok true") { continue; } } } }
                     c.sim.proof = Some(honest.clone()); c.sim.proof_honest = true;
                     c.run(format!("applyp R {}", crate::sim::proof_full_txt(&honest)));
+                    // the same answer once more: the upgrade now targets the length the replica already has
+                    if r.chance(1, 3) {
+                        *c.out.stats.entry("proof_reapplied".into()).or_insert(0) += 1;
+                        // (not an answer to a request the replica would make now: accepted or refused, but consistently)
+                        c.sim.proof = Some(honest.clone()); c.sim.proof_honest = false;
+                        c.run(format!("applyp R {}", crate::sim::proof_full_txt(&honest)));
+                    }
                 }
                 _ => {}
             }
